@@ -13,9 +13,11 @@ def run(chk, replay=None):
         elif x < 0.4: d["buffer_mode"] = dict(kind="too_small"); d["expect_reject"] = True
         if rnd.random() < 0.4: d["extra_padding"] = rnd.choice([1, 2, 3])
         if rnd.random() < 0.3 and not d.get("expect_reject"): d["starting_step"] = rnd.choice([1, 2, 3])
+        if not d.get("expect_reject") and not d.get("starting_step") and rnd.random() < 0.5:
+            d["paths"] = [(0, 0, 3)]; d["override_only"] = True      # supervisor output supplied by the user through step()
         return d
-    jobs = c07.make_jobs(chk, 7 if quick else 40, extra=extra)
-    res = cl.run_jobs(jobs, nproc=7 if quick else 10)
+    jobs = c07.make_jobs(chk, 10 if quick else 40, extra=extra)
+    res = cl.run_jobs(jobs, nproc=10)
     # a too_small request on a graph whose sizes are all 1 is not a case
     for j in jobs:
         r = res.get(j["id"], {})
@@ -37,6 +39,19 @@ def run(chk, replay=None):
         if j.get("buffer_mode"): chk.feat("user-sizes:" + j["buffer_mode"]["kind"])
         if j.get("extra_padding"): chk.feat("extra-padding")
         if j.get("starting_step"): chk.feat("starting-step>0")
+    # outputs supplied through step(graph_state, step_state, output) land in the slot the schedule names, whatever seq field the user's
+    # step state carries: all buffers (hence all later windows) equal those of the run in which the supervisor's step is executed by the graph
+    from .c09 import diff
+    for j in jobs:
+        r = res.get(j["id"], {})
+        for key, d in (r.get("paths") or {}).items():
+            if key == "vmap": continue
+            chk.feat("override-path")
+            for a, b in (("reset_step", "override"), ("override", "override_stale_seq")):
+                if a in d and b in d:
+                    x = diff({n: v["buffer"] for n, v in d[a]["nodes"].items()}, {n: v["buffer"] for n, v in d[b]["nodes"].items()}) or \
+                        diff({n: v["inputs"] for n, v in d[a]["nodes"].items()}, {n: v["inputs"] for n, v in d[b]["nodes"].items()})
+                    if x: chk.violation("override-output-in-wrong-buffer-slot", f"{a} vs {b}: {x}", dict(cfg=j["cfg"], mode=j["mode"], prune=j["prune"], seed=j.get("seed")))
     chk.extra["rule"] = ("instances as for C07 plus user buffer_sizes (computed + k; computed - 1 must be rejected), extra_padding 0-3 and starting "
                          "steps 0-3; the symbolic run (tags) of the extracted runner with the ring sizes rex actually allocated must pass check_sym, "
                          "the model's buffer_need must equal Timings.get_buffer_sizes(), and every recorded row (state, windows incl. payloads, output) "
